@@ -67,6 +67,7 @@ func recordHelperSig(sy *symbols, tok string, k *hx.Key, kid string) {
 type c14SeqStep struct {
 	iss, signerOf, kidOf, mint string // issuer named; whose key signs; whose key id is named; how it is minted
 	sub                        string // (deep 4) manual: the subject, when it is not the issuer
+	iatD, expD                 int64  // (deep 5) manual: iat / exp = now + this many seconds (0: the ordinary iat = now-5, exp = now+300)
 }
 
 func c14SeqStream(r *hx.Rand, tier string, nseq int, w *bufio.Writer, caseNo *int, stats map[string]int, sy *symbols) {
@@ -126,6 +127,24 @@ func c14SeqStream(r *hx.Rand, tier string, nseq int, w *bufio.Writer, caseNo *in
 				{iss: "client-A", signerOf: "client-A", kidOf: "client-A", mint: "helper"},
 				{iss: "client-A", signerOf: "client-A", kidOf: "client-A", mint: "manual", sub: "client-B"},
 				{iss: "client-C", signerOf: "client-C", kidOf: "client-C", mint: "manual", sub: "client-E"},
+			}
+		}
+		if s == 4 || s == 5 {
+			// (deep 5) sequences 4 and 5: the provider's window (1 h, 1 s); assertions genuine in every respect whose iat / exp lies FAR from
+			// the verifier's clock: one int64-nanosecond wrap (2^64 ns = 18446744073.7 s, about 584.5 years) ahead / ago, 2^55 s and 2^62 s
+			// (whole multiples of 2^64 ns), half a wrap; an exp one wrap ago (+300 s) must be refused, an exp 2^62 s ahead is unexpired
+			maxAge, offset, custom, vlife = time.Hour, time.Second, false, "shared"
+			via = []string{"verify", "clientauth"}[s-4]
+			script = []c14SeqStep{
+				{iss: "client-A", signerOf: "client-A", kidOf: "client-A", mint: "helper"},
+				{iss: "client-A", signerOf: "client-A", kidOf: "client-A", mint: "manual", iatD: 18446744074},
+				{iss: "client-B", signerOf: "client-B", kidOf: "client-B", mint: "manual", iatD: -18446744074},
+				{iss: "client-C", signerOf: "client-C", kidOf: "client-C", mint: "manual", iatD: 1 << 55},
+				{iss: "client-A", signerOf: "client-A", kidOf: "client-A", mint: "manual", iatD: -(1 << 62)},
+				{iss: "client-B", signerOf: "client-B", kidOf: "client-B", mint: "manual", expD: -18446744074 + 300},
+				{iss: "client-A", signerOf: "client-A", kidOf: "client-A", mint: "manual", expD: 1 << 62},
+				{iss: "client-B", signerOf: "client-B", kidOf: "client-B", mint: "manual", iatD: 9223372037},
+				{iss: "client-A", signerOf: "client-A", kidOf: "client-A", mint: "helper"},
 			}
 		}
 		var opts []op.JWTProfileVerifierOption
@@ -192,6 +211,12 @@ func c14SeqStream(r *hx.Rand, tier string, nseq int, w *bufio.Writer, caseNo *in
 				if st.sub != "" {
 					variant = "delegated-sub"
 				}
+				if st.iatD != 0 {
+					variant = "far-iat"
+				}
+				if st.expD != 0 {
+					variant = "far-exp"
+				}
 			}
 			signEnt := keyOf(st.signerOf)
 			kid := signEnt.kid
@@ -227,7 +252,17 @@ func c14SeqStream(r *hx.Rand, tier string, nseq int, w *bufio.Writer, caseNo *in
 				case "aud":
 					aud = hx.Pick(r, []string{"https://other"}, []string{}, []string{"https://other", issuer})
 				case "time":
-					switch r.Intn(3) {
+					switch r.Intn(5) {
+					case 3: // (deep 5) far from the verifier's clock (c14FarTime)
+						var fc string
+						iat, fc = c14FarTime(r, sec)
+						variant = "far-iat"
+						stats["seq-far-iat-"+fc]++
+					case 4:
+						var fc string
+						exp, fc = c14FarTime(r, sec)
+						variant = "far-exp"
+						stats["seq-far-exp-"+fc]++
 					case 0:
 						exp = sec + offS + int64(hx.Pick(r, -2, -1, 0, 1, 2))
 					case 1:
@@ -242,6 +277,12 @@ func c14SeqStream(r *hx.Rand, tier string, nseq int, w *bufio.Writer, caseNo *in
 				}
 				if st.sub != "" {
 					sub = st.sub
+				}
+				if st.iatD != 0 {
+					iat = sec + st.iatD
+				}
+				if st.expD != 0 {
+					exp = sec + st.expD
 				}
 				payload, _ := json.Marshal(map[string]any{"iss": iss, "sub": sub, "aud": aud, "iat": iat, "exp": exp})
 				tok, err = sy.sign(signEnt.k, signEnt.k.Algs[0], kid, payload)
@@ -362,6 +403,10 @@ func c14MintStream(r *hx.Rand, n int, w *bufio.Writer, caseNo *int, stats map[st
 		expiration := time.Hour
 		if family == "signed" {
 			expiration = hx.Pick(r, time.Hour, time.Hour, 10*time.Second, 0, -5*time.Second)
+			if r.Chance(12) { // (deep 5) lifetimes at the ends of what a Duration can say: +-146 years, +292.47 years (math.MaxInt64 ns)
+				expiration = hx.Pick(r, time.Duration(1)<<62, -(time.Duration(1) << 62), time.Duration(1<<63-1))
+				stats["mint-far-expiration"]++
+			}
 		}
 		aud := hx.Pick(r, []string{issuer}, []string{issuer}, []string{issuer, "https://x"}, []string{"https://other"}, []string{})
 		kid := f.kid
